@@ -134,9 +134,13 @@ def run_shards(fn_module, fn_name, kwargs_list, processes=None):
     if processes == 1 or len(jobs) == 1:
         outs = [_shard_entry(j) for j in jobs]
     else:
+        # ProcessPoolExecutor workers are not daemonic, so shards may start child processes
+        # themselves (ParallelMap workers in C13)
+        import concurrent.futures
+
         ctx = multiprocessing.get_context("fork")
-        with ctx.Pool(processes, maxtasksperchild=1) as pool:
-            outs = pool.map(_shard_entry, jobs, chunksize=1)
+        with concurrent.futures.ProcessPoolExecutor(processes, mp_context=ctx) as ex:
+            outs = list(ex.map(_shard_entry, jobs))
     results = []
     for status, payload in outs:
         if status != "ok":
